@@ -221,4 +221,56 @@ def received : List RxOut → Bytes
   | .data b :: os => b ++ received os
   | _ :: os => received os
 
+/-! ### which configuration `maxPayloadSizeForWrite` reads
+
+`pmtu := c.config.PMTU` — `c.config` is whatever `*Config` the application handed to
+`Client` / `Server` (dtlcp.go: `config: config`), or, on a server whose configuration has
+`GetConfigForClient`, the non-nil `*Config` that callback returned (`selectConfigForClient`:
+`c.config = configForClient`).  The application may have obtained that `*Config` from the one
+it configured through any number of `Config.Clone()` calls.  Nothing else in the package writes
+`c.config` (except the nil case of `clientHandshake`) or a `PMTU` field. -/
+
+/-- source shapes on the way from the configured `*Config` to `c.config.PMTU`, fed from the
+regenerated facts by the callers -/
+structure CfgConsts where
+  /-- the literal returned by `Config.Clone` has `PMTU: <receiver>.PMTU`; when the key is
+      missing the clone carries Go's zero value -/
+  cloneCopiesPmtu : Bool
+  /-- `selectConfigForClient` assigns the non-nil result of `GetConfigForClient` to `c.config` -/
+  forClientInstalled : Bool
+deriving Repr, DecidableEq
+
+/-- how the application derived a `*Config` from the one it configured -/
+inductive Via where
+  /-- the configured object itself -/
+  | direct
+  /-- `.Clone()` of a configuration obtained by `v` -/
+  | clone (v : Via)
+deriving Repr, DecidableEq
+
+/-- the `PMTU` field of the derived `*Config` -/
+def viaPmtu (k : CfgConsts) : Via → Int → Int
+  | .direct, pmtu => pmtu
+  | .clone v, pmtu => if k.cloneCopiesPmtu then viaPmtu k v pmtu else 0
+
+/-- `Clone` applied `n` times -/
+def Via.clones : Nat → Via
+  | 0 => .direct
+  | n + 1 => .clone (Via.clones n)
+
+/-- how a derived `*Config` reaches the connection -/
+inductive Reach where
+  /-- `Client(pconn, addr, cfg)` / `Server(pconn, addr, cfg)` -/
+  | ctor (v : Via)
+  /-- `Server(pconn, addr, listener)` where `listener.PMTU = listenerPmtu` and
+      `listener.GetConfigForClient` returns the derived `*Config` -/
+  | forClient (listenerPmtu : Int) (v : Via)
+deriving Repr, DecidableEq
+
+/-- the value `maxPayloadSizeForWrite` reads from `c.config.PMTU` once the handshake has
+selected the configuration, when the application configured `pmtu` -/
+def pmtuRead (k : CfgConsts) : Reach → Int → Int
+  | .ctor v, pmtu => viaPmtu k v pmtu
+  | .forClient lp v, pmtu => if k.forClientInstalled then viaPmtu k v pmtu else lp
+
 end Gotlcp.Model.DtlcpTx
